@@ -4,7 +4,7 @@
    model (Helpers.v) for every fitted pipeline, Koopman matrix, flag combination and data that passes the checks the
    source itself makes (`gen_episode_checks`: min_samples_ initial samples, at least min_samples_ input samples). *)
 From Coq Require Import List ZArith NArith Arith Bool Lia.
-From PK Require Import PyList SliceLib Episodes Stage Helpers BridgeEpisodes BridgeStages BridgeHelpers.
+From PK Require Import PyList SliceLib Episodes Stage StageFacts Helpers PredictFacts BridgeEpisodes BridgeStages BridgeHelpers.
 From PK.Gen Require Import EpisodesGen PredictGen.
 Import ListNotations.
 
@@ -265,6 +265,32 @@ Proof.
     rewrite <- HN. unfold to_nr. cbn [nr_X nr_Theta nr_Ups fst snd].
     change (hstack_list [?a; ?b]) with (hstack a b).
     destruct rl, ri; reflexivity.
+Qed.
+
+(* with the window of the pipeline itself (min_samples_, which is what the source passes) the one-row premise holds *)
+Lemma lift_state_one_row : forall (X0 : raw), length X0 = min_samples (f_stage f) -> length (LS X0) = 1.
+Proof.
+  intros X0 H. unfold lift_state. cbn [eff]. rewrite map_length.
+  set (Rpad := map (fun r => r ++ repeat t0 (snd (f_dims f))) X0).
+  assert (HL : length Rpad = length X0) by apply map_length.
+  rewrite (@lift_false_length T O f Rpad) by (rewrite HL; lia).
+  pose proof (samples_in_ge (f_stage f) 1) as Hge. unfold min_samples in *. lia.
+Qed.
+
+Theorem gen_predict_trajectory_model_min_samples :
+  forall (relift ret_lifted ret_input : bool) (call : option bool) (X0_or_X : raw) (U : option raw),
+  let w := min_samples (f_stage f) in
+  let c := eff f call in
+  let eps := gen_split_state_input_episodes T ns w c (of_raw O c X0_or_X) (option_map (of_raw O c) U) in
+  forallb (fun e => gen_episode_checks T w (fst (snd e)) (snd (snd e))) eps = true ->
+  to_raw O c (gen_predict_trajectory T t0 LS LI RS affine_model ns (fst (f_out f)) (snd (f_out f)) w
+                relift ret_lifted ret_input (f_ep f) call (of_raw O c X0_or_X) (option_map (of_raw O c) U))
+  = predict_trajectory O f coef w relift ret_lifted ret_input call X0_or_X U.
+Proof.
+  intros relift rl ri call X0_or_X U w c eps Hchk.
+  apply gen_predict_trajectory_model; [exact Hchk|].
+  intros _ e He. apply lift_state_one_row.
+  rewrite forallb_forall in Hchk. pose proof (Hchk _ He) as Hc. apply gen_episode_checks_spec in Hc. exact (proj1 Hc).
 Qed.
 
 End Bridge.
